@@ -78,40 +78,48 @@ Definition is_empty_list {A} (o : option (list A)) : bool := match o with Some [
 Definition opt_items {A} (o : option A) (mk : A -> qitem) : list qitem :=
   match o with Some x => [mk x] | None => [] end.
 
-(* one filter -> one plan, or None when the planner skips it (`continue`) *)
+(* plan.query *)
+Definition plan_items (f : filter) : list qitem :=
+  opt_items (f_since f) QSince ++ opt_items (f_until f) QUntil ++
+  opt_items (f_ids f) QIds ++ opt_items (f_kinds f) QKinds ++ opt_items (f_authors f) QAuthors ++
+  map (fun nv => QTag (fst nv) (snd nv)) (f_tags f).
+
+(* the MultiIndex.add calls, in order: ids, then authorkinds | kinds | authors, then tags *)
+Definition stage_ids (f : filter) : list (idx * list mval) :=
+  match f_ids f with Some l => [(IxIds, map MStr l)] | None => [] end.
+Definition stage_ak (f : filter) : list (idx * list mval) :=
+  match f_kinds f, f_authors f with
+  | Some ks, Some au => [(IxAuthorKinds, flat_map (fun a => map (fun k => MStrInt a k) ks) au)]
+  | Some ks, None => [(IxKinds, map MInt ks)]
+  | None, Some au => [(IxAuthors, map MStr au)]
+  | None, None => []
+  end.
+Definition tag_pairs (f : filter) : list (pystr * pystr) :=
+  flat_map (fun nv => map (fun v => (fst nv, v)) (snd nv)) (f_tags f).
+Definition stage_tags (f : filter) : list (idx * list mval) :=
+  match f_tags f with
+  | [] => []
+  | _ => [(IxTags, map (fun p => MStrStr (fst p) (snd p)) (sort_desc_pairs (tag_pairs f)))]
+  end.
+Definition plan_stages (f : filter) : list (idx * list mval) := stage_ids f ++ stage_ak f ++ stage_tags f.
+
+(* the `continue`s: an empty ids / kinds / authors list or an empty tag value set *)
+Definition skipped (f : filter) : bool :=
+  is_empty_list (f_ids f) || is_empty_list (f_kinds f) || is_empty_list (f_authors f) ||
+  existsb (fun nv => match snd nv with [] => true | _ => false end) (f_tags f).
+
+Definition mk_plan (default_limit max_limit : option Z) (f : filter) : plan :=
+  {| p_query := plan_items f; p_index := finalize (plan_stages f);
+     p_limit := plan_limit default_limit max_limit f; p_since := f_since f; p_until := f_until f |}.
+
+(* one filter -> one plan, or None when the planner skips it (`continue`);
+   without any index the created_at range scan is refused unless since or until is non-zero *)
 Definition plan_one (default_limit max_limit : option Z) (f : filter) : option plan :=
-  if is_empty_list (f_ids f) || is_empty_list (f_kinds f) || is_empty_list (f_authors f) then None
-  else if existsb (fun nv => match snd nv with [] => true | _ => false end) (f_tags f) then None
-  else
-    let items :=
-      opt_items (f_since f) QSince ++ opt_items (f_until f) QUntil ++
-      opt_items (f_ids f) QIds ++ opt_items (f_kinds f) QKinds ++ opt_items (f_authors f) QAuthors ++
-      map (fun nv => QTag (fst nv) (snd nv)) (f_tags f) in
-    let st_ids := match f_ids f with Some l => [(IxIds, map MStr l)] | None => [] end in
-    let st_ak :=
-      match f_kinds f, f_authors f with
-      | Some ks, Some au => [(IxAuthorKinds, flat_map (fun a => map (fun k => MStrInt a k) ks) au)]
-      | Some ks, None => [(IxKinds, map MInt ks)]
-      | None, Some au => [(IxAuthors, map MStr au)]
-      | None, None => []
-      end in
-    let st_tags :=
-      match f_tags f with
-      | [] => []
-      | tg => [(IxTags, map (fun p => MStrStr (fst p) (snd p))
-                            (sort_desc_pairs (flat_map (fun nv => map (fun v => (fst nv, v)) (snd nv)) tg)))]
-      end in
-    let stages := st_ids ++ st_ak ++ st_tags in
-    match stages with
-    | [] => if truthy (f_since f) || truthy (f_until f)
-            then Some {| p_query := items; p_index := finalize stages;
-                         p_limit := plan_limit default_limit max_limit f;
-                         p_since := f_since f; p_until := f_until f |}
-            else None
-    | _ => Some {| p_query := items; p_index := finalize stages;
-                   p_limit := plan_limit default_limit max_limit f;
-                   p_since := f_since f; p_until := f_until f |}
-    end.
+  if skipped f then None
+  else match plan_stages f with
+       | [] => if truthy (f_since f) || truthy (f_until f) then Some (mk_plan default_limit max_limit f) else None
+       | _ => Some (mk_plan default_limit max_limit f)
+       end.
 
 Definition planner (default_limit max_limit : option Z) (fs : list filter) : list plan :=
   flat_map (fun f => match plan_one default_limit max_limit f with Some p => [p] | None => [] end)
